@@ -212,6 +212,11 @@ class Ctx:
             if n > self.conc_cap:
                 self.solver.pop()
                 raise Unsupported("concretisation cap")
+            if _time.time() - self.path_t0 > self.max_path_time:
+                # (an enumeration of thousands of values, one solver call
+                # each, must not escape the per-path time budget)
+                self.solver.pop()
+                raise StepBudget("concretisation runs longer than %d s" % self.max_path_time)
         self.solver.pop()
         self.trail.append(('c', v0))
         self.solver.add(e == bv(v0))
